@@ -114,9 +114,8 @@ func runC10ConcChild(r *Run) {
 	var stopOnce sync.Once
 	stop := make(chan struct{})
 	failf := func(key, format string, a ...interface{}) {
-		if fail.CompareAndSwap(nil, [2]string{key, fmt.Sprintf(format, a...)}) {
-			stopOnce.Do(func() { close(stop) })
-		}
+		fail.CompareAndSwap(nil, [2]string{key, fmt.Sprintf(format, a...)})
+		stopOnce.Do(func() { close(stop) })
 	}
 
 	// ---- fixed objects ------------------------------------------------------------------
@@ -341,6 +340,51 @@ func runC10ConcChild(r *Run) {
 	case <-done:
 	case <-time.After(20 * time.Second):
 		failf("C10/conc-hang", "readers/writers did not stop within 20 s")
+	}
+	// ---- overlapping writers on the SAME account: read-modify-write must be atomic ------------
+	if fail.Load() == nil {
+		x := c.g.acct()
+		x.Value, x.HeightHint = 1000, 1000
+		xa := x.build()
+		if db.AddAccount(xa) == nil {
+			const perWriter = 150
+			var wg2 sync.WaitGroup
+			bump := []account.Modifier{
+				func(a *account.Account) { a.Value++ },
+				func(a *account.Account) { a.HeightHint++ },
+			}
+			for w := 0; w < 2; w++ {
+				wg2.Add(1)
+				go func(w int) {
+					defer wg2.Done()
+					defer func() { recover() }()
+					mine := *xa
+					for i := 0; i < perWriter; i++ {
+						if err := db.UpdateAccount(&mine, bump[w]); err != nil {
+							failf("C10/conc-writer", "UpdateAccount: %v", err)
+							return
+						}
+					}
+				}(w)
+			}
+			d2 := make(chan struct{})
+			go func() { wg2.Wait(); close(d2) }()
+			select {
+			case <-d2:
+			case <-time.After(30 * time.Second):
+				failf("C10/conc-hang", "overlapping account writers did not finish within 30 s")
+			}
+			y, err := db.Account(xa.TraderKey.PubKey)
+			r.Hist["conc/overlapping-updates"] += 2 * perWriter
+			if err != nil || uint64(y.Value) != 1000+perWriter || y.HeightHint != 1000+perWriter {
+				got := fmt.Sprint(err)
+				if err == nil {
+					got = fmt.Sprintf("value=%d heightHint=%d", uint64(y.Value), y.HeightHint)
+				}
+				failf("C10/conc-lost-update", "two writers updated different fields of one account %d times each "+
+					"(value++ / heightHint++ from 1000): an update that was written is gone, read %s", perWriter, got)
+			}
+		}
 	}
 	r.Evaluations += int(atomic.LoadInt64(&reads))
 	r.Hist["conc/reads"] += int(atomic.LoadInt64(&reads))
